@@ -807,7 +807,14 @@ def per_class_cases(ctx, rec, rng_bytes, full, salt):
         fields = {"one": ["x"], "multi": ["pad", "x", "tail"], "opt": ["flag", "x"], "ref": ["k", "x"]}[rec.layout]
     m = len(whole)
     if full:
-        cuts = [(whole[:c], 0) for c in range(m)] + [(whole, off) for off in range(1, m + 1)]
+        cuts = [(whole[:c], 0) for c in range(m)]
+        # starting offsets that leave too few bytes - only where the frame keeps its meaning when read from there: behind an
+        # optional's flag byte the first byte read decides whether x is there at all (a zero makes the short input valid), and a
+        # selector key read from the middle of x selects something else
+        if rec.layout == "opt":
+            cuts += [(whole, off) for off in range(1, m + 1) if off >= m or whole[off] != 0]
+        elif rec.layout != "ref":
+            cuts += [(whole, off) for off in range(1, m + 1)]
     else:
         # the last byte missing, and a cut inside x itself (not only in the neighbours)
         first_x = 1 if rec.layout in ("multi", "opt", "ref") else 0
